@@ -266,6 +266,8 @@ var respExtVariants = []string{
 	// reported under their own classes if accepted
 	"permessage-deflate; server_max_window_bits=99",
 	"permessage-deflate; server_max_window_bits=abc",
+	"permessage-deflate; server_max_window_bits=012", // numerically in range, not the decimal without leading zeros the RFC asks for
+	"permessage-deflate; server_max_window_bits=+12",
 	"permessage-deflate; server_max_window_bits",
 	"permessage-deflate; client_no_context_takeover; client_no_context_takeover",
 	"permessage-deflate; server_no_context_takeover=1",
